@@ -460,13 +460,15 @@ static json gen_marcus() {
   c["J2"] = rlog(-12, -4);
   c["alpha"] = rbool(50) ? std::pow(2.0, ri(-8, 8)) : rfrac(1, 4000, 16);
   c["kT"] = rfrac(10, 200, 65536);  // 1.5e-4 .. 3.05e-3 Ha  (48 K .. 960 K)
-  int fk = ri(0, 3);
+  int fk = ri(0, 4);
+  const int wexp = ri(28, 50);  // fk == 4: weak fields, 64*2^-28 = 2.4e-7 down to 2^-50 = 9e-16 Ha/bohr (low-field extrapolation)
   std::vector<double> F(3, 0.0), R(3, 0.0);
   for (int i = 0; i < 3; ++i) {
     R[size_t(i)] = rfrac(-480, 480, 16);  // +-30 bohr
     if (fk == 1) F[size_t(i)] = rfrac(-64, 64, 1048576);  // up to 6.1e-5 Ha/bohr ~ 3e7 V/m
     if (fk == 2 && i == 0) F[0] = rfrac(-64, 64, 1048576);
     if (fk == 3) F[size_t(i)] = rfrac(-64, 64, 65536);    // strong field
+    if (fk == 4) F[size_t(i)] = std::ldexp(double(ri(-64, 64)), -wexp);
   }
   c["F"] = F;
   c["R"] = R;
